@@ -79,3 +79,83 @@ def add_obligations(res, tree, rule: str, scope: str = "all") -> int:
                         "position + displacement" if ok else f"{txt(t, 3, 80)}: the displacement of the move table is subtracted -- every action moves the opposite way")
                 n += 1
     return n
+
+
+# ------------------------------------------------------------------------------------------------------------------
+def _at_set(t: T):
+    """(base, idx, val) for base.at[idx].set(val)"""
+    from ..terms import uncopy
+    t = uncopy(strip_cast(t))
+    if t.kind == "call" and t.args[0].kind == "attr" and t.args[0].args[1] == "set" and t.args[1]:
+        b = t.args[0].args[0]
+        if b.kind == "index" and b.args[0].kind == "attr" and b.args[0].args[1] == "at":
+            return b.args[0].args[0], b.args[1], t.args[1][0]
+    return None
+
+
+def _layer_and_coords(idx: T):
+    """(layer constant or None, non-constant coordinate terms) of a scatter index"""
+    from ..terms import contains  # noqa: F401
+    items = list(idx.args[0]) if idx.kind == "tuple" else [idx]
+    layer = None
+    coords = []
+    for x in items:
+        s = strip_cast(x)
+        if ext_name(s) == "builtins.tuple" and s.args[1]:
+            s = strip_cast(s.args[1][0])          # G.at[tuple(position)]
+        if s.kind == "const":
+            layer = s.args[0] if layer is None else layer
+        else:
+            coords.append(s)
+    return layer, coords
+
+
+def write_order_obligations(res, tree, rule: str) -> int:
+    """Moving an entity on a grid is two writes on the same array: one at the origin, one at the destination, the
+    destination being computed from the origin (origin + displacement, a switch over candidate cells, a clamp ...).
+    When the move is blocked the two cells coincide and the LAST write wins, so the write at the destination -- the one
+    that leaves the entity on the grid -- must be the last one.  (SlidingTilePuzzle: the blank's new cell; RobotWarehouse:
+    agents and shelves; Sokoban: the agent.)"""
+    from ..terms import contains
+    n = 0
+    seen = set()
+    for ea in analyses(tree):
+        for root in (ea.reset_result, ea.step_result):
+            for t in deps(root):
+                outer = _at_set(t)
+                if not outer:
+                    continue
+                inner = _at_set(outer[0])
+                if not inner:
+                    continue
+                lo, co = _layer_and_coords(outer[1])
+                li, ci = _layer_and_coords(inner[1])
+                if lo != li or not co or not ci or outer[1] is inner[1]:
+                    continue
+
+                def clears(v):
+                    v = strip_cast(v)
+                    return v.kind == "const" and v.args[0] in (0, False)
+                if clears(outer[2]) == clears(inner[2]):
+                    continue        # a move clears one cell and fills another
+
+                def derived(cs_new, cs_old):
+                    olds = [d for c in cs_old for d in ([c] + [x for x in deps(c) if x.kind in ("attr", "proj", "index")])]
+                    olds = [o for o in olds if o.kind != "const"]
+                    return any(c is not o and contains(c, o) for c in cs_new for o in cs_old)
+
+                out_from_in = derived(co, ci)      # outer index computed from the inner one: destination written last (good)
+                in_from_out = derived(ci, co)      # inner index computed from the outer one: origin written last (bad)
+                if out_from_in == in_from_out:
+                    continue
+                loc, fn, src = site_of(t)
+                key = (fn, src)
+                if key in seen:
+                    continue
+                seen.add(key)
+                ok = out_from_in
+                res.add(rule, loc, fn, f"the write at the destination of a move comes after the write at its origin: {src}", ok,
+                        "destination written last" if ok else
+                        f"the origin {txt(outer[1], 2, 50)} is rewritten after the destination {txt(inner[1], 2, 50)}: when the move is blocked both are the same cell and the entity is erased from the grid")
+                n += 1
+    return n
